@@ -37,6 +37,26 @@ def rdNext (pending : List Bytes) (fused : Bool) (room : Nat) : RdRes :=
 
 /-! ## TCP: `Bidirectional` -/
 
+/-- What kind of object the relay is handed for a side (how the production callers build it):
+* `cw`    — implements `CloseWrite` itself (`*net.TCPConn`-like: the local application socket);
+* `same`  — `iocopy.NewReadWriteCloser(conn, conn, closeFn)`: reader and writer are the SAME transport
+            connection, which has `Close` but no `CloseWrite` (websocket / KCP / QUIC tunnel conn) — the way
+            mapping/base.go, target_handler.go `createTunnelRWC` and socks5_tunnel.go build the tunnel side;
+* `split` — `NewReadWriteCloser(r, w, closeFn)` with distinct reader and writer objects, the writer has `Close` only;
+* `none`  — `NewReadWriteCloser(r, w, closeFn)`, the writer has neither `CloseWrite` nor `Close`. -/
+inductive Kind where
+  | cw | same | split | none
+deriving DecidableEq, Repr, Inhabited
+
+/-- `tryCloseWrite(conn)` followed, for the wrapper kinds, by `readWriteCloser.CloseWrite()`
+(`closeWriteFunc` is nil, the Writer is no `CloseWriter`: nothing happens): does the half-close reach
+the transport?  Only for an object that implements `CloseWrite`.  For the other kinds the peer does
+not see the end of this direction until the final `Close` — and nothing else may happen to the
+connection, in particular its read side stays open. -/
+def tryCloseWrite : Kind → Bool
+  | .cw => true
+  | _ => false
+
 /-- A socket as the relay sees it. -/
 structure EP where
   reads : List Bytes        -- what successive Reads return (an empty chunk is `(0, nil)`)
@@ -44,6 +64,7 @@ structure EP where
   fused : Bool              -- last chunk and tail are returned together
   wfail : Option Nat        -- the Write call with this index is refused
   closeOnTail : Bool        -- full close: once its tail has been returned every Write to it is refused
+  kind : Kind               -- what the relay is handed for this side
 deriving DecidableEq, Repr
 
 inductive DErr where
@@ -83,19 +104,50 @@ def dirStep (src dst : EP) (dstTailSeen : Bool) (d : Dir) : Dir :=
     let d2 := { d1 with nw := d.nw + 1, delivered := d.delivered ++ r.data }
     if r.fin then d2.finishRead src.tail else d2
 
+/-- Schedule tokens of the TCP relay. `a`/`b`: the A→B / B→A goroutine runs one loop iteration
+(Read, Write, checks) without interruption. `ah`/`bh`: the same, but the sink is slow: the `Write`
+of this iteration STAYS IN PROGRESS (the sink holds a reference to the goroutine's copy buffer) until
+`ax`/`bx` lets it complete; meanwhile the other goroutine may run, half-close, finish. -/
+inductive TTok where
+  | a | b | ah | bh | ax | bx
+deriving DecidableEq, Repr
+
 structure TcpSt where
   ab : Dir
   ba : Dir
+  abHeld : Option Dir := none     -- A→B is blocked inside `writerB.Write`; the state it will have when the Write returns
+  baHeld : Option Dir := none
 deriving DecidableEq, Repr
 
-def tcpInit (A B : EP) : TcpSt := ⟨{ pending := A.reads }, { pending := B.reads }⟩
+def tcpInit (A B : EP) : TcpSt := { ab := { pending := A.reads }, ba := { pending := B.reads } }
 
-/-- Schedule token `true`: the A→B goroutine runs one iteration; `false`: B→A. -/
-def tcpStep (A B : EP) (s : TcpSt) (t : Bool) : TcpSt :=
-  if t then { s with ab := dirStep A B s.ba.tailSeen s.ab }
-  else { s with ba := dirStep B A s.ab.tailSeen s.ba }
+/-- Did this iteration hand bytes to the sink (and the sink accepted the call)? -/
+def wroteSomething (d d' : Dir) : Bool := decide (d'.delivered.length > d.delivered.length)
 
-def tcpRun (A B : EP) (σ : List Bool) : TcpSt := σ.foldl (tcpStep A B) (tcpInit A B)
+/-- Has A's Read returned its tail? (A goroutine blocked in a Write has already done its Read.) -/
+def TcpSt.aSeen (s : TcpSt) : Bool := (s.abHeld.getD s.ab).tailSeen
+def TcpSt.bSeen (s : TcpSt) : Bool := (s.baHeld.getD s.ba).tailSeen
+
+def tcpStep (A B : EP) (s : TcpSt) (t : TTok) : TcpSt :=
+  match t with
+  | .a => if s.abHeld.isSome then s else { s with ab := dirStep A B s.bSeen s.ab }
+  | .b => if s.baHeld.isSome then s else { s with ba := dirStep B A s.aSeen s.ba }
+  | .ah =>
+    if s.abHeld.isSome then s else
+    let d := dirStep A B s.bSeen s.ab
+    if wroteSomething s.ab d then { s with abHeld := some d } else { s with ab := d }
+  | .bh =>
+    if s.baHeld.isSome then s else
+    let d := dirStep B A s.aSeen s.ba
+    if wroteSomething s.ba d then { s with baHeld := some d } else { s with ba := d }
+  | .ax => match s.abHeld with
+    | some d => { s with ab := d, abHeld := none }
+    | none => s
+  | .bx => match s.baHeld with
+    | some d => { s with ba := d, baHeld := none }
+    | none => s
+
+def tcpRun (A B : EP) (σ : List TTok) : TcpSt := σ.foldl (tcpStep A B) (tcpInit A B)
 
 /-- `wg.Wait()` has passed. -/
 def TcpSt.returned (s : TcpSt) : Bool := s.ab.done && s.ba.done
@@ -103,9 +155,9 @@ def TcpSt.returned (s : TcpSt) : Bool := s.ab.done && s.ba.done
 /-- Iterations that certainly exhaust a script. -/
 def stepsFor (reads : List Bytes) : Nat := reads.flatten.length + reads.length + 1
 
-/-- A schedule followed by "let A→B run to its end, then B→A". -/
-def tcpComplete (A B : EP) (σ : List Bool) : List Bool :=
-  σ ++ List.replicate (stepsFor A.reads) true ++ List.replicate (stepsFor B.reads) false
+/-- A schedule followed by "let pending writes complete, let A→B run to its end, then B→A". -/
+def tcpComplete (A B : EP) (σ : List TTok) : List TTok :=
+  σ ++ [.ax, .bx] ++ List.replicate (stepsFor A.reads) .a ++ List.replicate (stepsFor B.reads) .b
 
 /-- What the fake sockets and the caller observe. -/
 structure TcpObs where
@@ -115,7 +167,7 @@ structure TcpObs where
   wfB : Bool                -- B refused a Write (environment fault)
   wfA : Bool
   bad : Bool                -- the relay wrote to a socket it had itself closed / half-closed
-  cwB : Bool                -- CloseWrite(B) issued
+  cwB : Bool                -- a half-close reached socket B
   cwA : Bool
   closed : Bool             -- Close issued on both
   sent : Nat
@@ -124,9 +176,9 @@ structure TcpObs where
   rerr : DErr
 deriving DecidableEq, Repr
 
-def tcpObs (s : TcpSt) : TcpObs :=
+def tcpObs (A B : EP) (s : TcpSt) : TcpObs :=
   { ret := s.returned, toB := s.ab.delivered, toA := s.ba.delivered, wfB := s.ab.wfEnv, wfA := s.ba.wfEnv,
-    bad := false, cwB := s.ab.done, cwA := s.ba.done, closed := s.returned,
+    bad := false, cwB := s.ab.done && tryCloseWrite B.kind, cwA := s.ba.done && tryCloseWrite A.kind, closed := s.returned,
     sent := s.ab.bytes, recv := s.ba.bytes, serr := s.ab.err, rerr := s.ba.err }
 
 /-! ## UDP: the length-prefixed stream encoding -/
@@ -165,34 +217,110 @@ inductive UEv where
   | tick                    -- the flush ticker fires
 deriving DecidableEq, Repr
 
+/-- Who is inside `tunnelConn.Write` (and therefore holds `batchMu`). -/
+inductive Writer where
+  | ticker                      -- the flush goroutine
+  | mainHalf                    -- the main loop, batch more than half full
+  | mainFin (tailErr : Bool)    -- the main loop, final flush after the UDP read ended
+deriving DecidableEq, Repr
+
+/-- A `tunnelConn.Write(batchBuf[:n])` in progress: the tunnel holds a REFERENCE to the first `n`
+bytes of the batch buffer and reads them when the write completes. -/
+structure Wip where
+  n : Nat
+  who : Writer
+deriving DecidableEq, Repr
+
+/-- What the main loop holds in its hands while it waits for `batchMu`. -/
+inductive ParkedEv where
+  | dgram (d : Bytes)           -- a datagram it has read (already cut to the read buffer, non-empty)
+  | tail (tailErr : Bool)       -- the read error / EOF
+deriving DecidableEq, Repr
+
 structure Enc where
   pending : List UEv
   batch : Bytes := []           -- batchBuf[:batchPos]
-  flushes : List Bytes := []    -- successive `tunnelConn.Write` payloads
+  flushes : List Bytes := []    -- what successive `tunnelConn.Write` calls delivered
   nread : Nat := 0              -- Reads that returned a datagram
   sent : Nat := 0               -- Result.BytesSent
   serr : Bool := false          -- Result.SendError != nil
   done : Bool := false
+  wip : Option Wip := none      -- a tunnel Write is in progress (its caller holds batchMu)
+  parked : Option ParkedEv := none
 deriving DecidableEq, Repr
 
-/-- `flushLocked`. -/
+/-- `flushLocked`, when the tunnel accepts the bytes at once. -/
 def Enc.flush (e : Enc) : Enc :=
   if e.batch.isEmpty then e else { e with flushes := e.flushes ++ [e.batch], batch := [] }
 
-def encEv (e : Enc) : UEv → Enc
-  | .tick => e.flush
+/-- `if batchPos+packetSize > batchBufSize { flushLocked() }` -/
+def Enc.room (e : Enc) (n : Nat) : Enc :=
+  if e.batch.length + (2 + n) > fullAt then e.flush else e
+
+/-- prefix + payload into the batch buffer at `batchPos`. -/
+def Enc.put (e : Enc) (d : Bytes) : Enc :=
+  { e with batch := e.batch ++ encode1 d, sent := e.sent + d.length }
+
+/-- `if batchPos > batchBufSize/2 { flushLocked() }`; `hold`: the tunnel is slow, this Write stays in progress. -/
+def Enc.half (e : Enc) (hold : Bool) : Enc :=
+  if e.batch.length > halfFull then
+    (if hold then { e with wip := some ⟨e.batch.length, .mainHalf⟩ } else e.flush)
+  else e
+
+/-- The loop body after `batchMu.Lock()` for a datagram of `n > 0` bytes. -/
+def Enc.encode (e : Enc) (d : Bytes) (hold : Bool) : Enc :=
+  ((e.room d.length).put d).half hold
+
+def encEv (e : Enc) (hold : Bool) : UEv → Enc
+  | .tick =>
+    if hold && !e.batch.isEmpty then { e with wip := some ⟨e.batch.length, .ticker⟩ } else e.flush
   | .dgram d0 =>
     let d := d0.take readBuf_0                          -- Read into a 64 KiB buffer
     let e0 := { e with nread := e.nread + 1 }
     if d.length = 0 then e0                             -- `if n == 0 { continue }`
-    else
-      let e1 := if e0.batch.length + (2 + d.length) > fullAt then e0.flush else e0
-      let e2 := { e1 with batch := e1.batch ++ encode1 d, sent := e1.sent + d.length }
-      if e2.batch.length > halfFull then e2.flush else e2
+    else e0.encode d hold
 
 /-- Read error / EOF: final flush, leave the loop, half-close the tunnel. -/
-def Enc.finish (tailErr : Bool) (e : Enc) : Enc :=
-  { e.flush with done := true, serr := tailErr }
+def Enc.finish (tailErr hold : Bool) (e : Enc) : Enc :=
+  if hold && !e.batch.isEmpty then { e with wip := some ⟨e.batch.length, .mainFin tailErr⟩ }
+  else { e.flush with done := true, serr := tailErr }
+
+/-- The tunnel Write in progress returns: the tunnel has now read the `n` bytes the buffer holds AT
+THIS MOMENT, `batchPos = 0`, the writer releases `batchMu` and goes on; a main loop that was waiting
+for the lock gets it. -/
+def Enc.endWrite (e : Enc) : Enc :=
+  match e.wip with
+  | none => e
+  | some w =>
+    let e1 := { e with flushes := e.flushes ++ [e.batch.take w.n], batch := [], wip := none }
+    match w.who with
+    | .mainFin te => { e1 with done := true, serr := te }
+    | .mainHalf => e1
+    | .ticker =>
+      match e.parked with
+      | none => e1
+      | some (.dgram d) => ({ e1 with parked := none }).encode d false
+      | some (.tail te) => { ({ e1 with parked := none }).flush with done := true, serr := te }
+
+/-- The main loop's next step while somebody else's tunnel Write is in progress: a tick is absorbed
+(the ticker is busy or waits for the lock); if the ticker is the writer the main loop can still take
+ONE Read — its result is parked until the lock is free; otherwise nothing moves. -/
+def Enc.stepBlocked (e : Enc) (w : Wip) (udpClosed : Bool) (utailEnd : Option Bool) : Enc :=
+  match e.pending with
+  | .tick :: rest => { e with pending := rest }
+  | evs =>
+    if w.who == .ticker && e.parked.isNone then
+      if udpClosed then { e with parked := some (.tail false) }
+      else match evs with
+        | .dgram d0 :: rest =>
+          let d := d0.take readBuf_0
+          let e0 := { e with pending := rest, nread := e.nread + 1 }
+          if d.length = 0 then e0 else { e0 with parked := some (.dgram d) }
+        | _ =>
+          match utailEnd with
+          | none => e
+          | some te => { e with parked := some (.tail te) }
+    else e
 
 /-! ## tunnel → UDP goroutine -/
 
@@ -256,40 +384,71 @@ deriving DecidableEq, Repr
 structure UdpSt where
   enc : Enc
   dec : Dec
+  decHeld : Option Dec := none  -- tunnel→UDP is blocked inside `udpConn.Write`; its state when the Write returns
   udpClosed : Bool := false     -- the relay closed udpConn (tunnel direction ended)
   cwT : Bool := false           -- the relay half-closed the tunnel (UDP direction ended)
 deriving DecidableEq, Repr
 
 def udpInit (c : UdpCase) : UdpSt := { enc := { pending := c.uevs }, dec := { pending := c.tchunks } }
 
-/-- Token `true`: the UDP→tunnel goroutine (or its ticker) takes its next event; `false`: one
-iteration of the tunnel→UDP goroutine. A blocked goroutine does not move. -/
-def udpStep (v : Variant) (c : UdpCase) (s : UdpSt) (t : Bool) : UdpSt :=
-  if t then
-    if s.enc.done then s
-    else if s.udpClosed then { s with enc := s.enc.finish false, cwT := true }
-    else match s.enc.pending with
-      | ev :: rest => { s with enc := encEv { s.enc with pending := rest } ev }
-      | [] =>
-        match c.utail with
-        | .hold => s
-        | .eof => { s with enc := s.enc.finish false, cwT := true }
-        | .err => { s with enc := s.enc.finish true, cwT := true }
-  else
-    if s.dec.done then s
-    else if s.dec.pending.isEmpty && c.ttail == .hold && !s.cwT && decide (s.dec.buf.length < refill) then s
-    else
-      let d := decIter v (c.ttail == .err) (c.tfused && c.ttail != .hold) s.dec
-      { s with dec := d, udpClosed := s.udpClosed || (d.done && v == .repaired) }
+/-- Schedule tokens of the UDP relay. `u`: the UDP→tunnel side takes its next event (datagram read +
+encode, or a ticker flush) without interruption. `t`: one iteration of the tunnel→UDP goroutine.
+`uh`/`th`: the same, but the Write this step issues (tunnel Write of a flush / first UDP Write of the
+iteration) STAYS IN PROGRESS until `w`/`v`. A blocked goroutine does not move. -/
+inductive UTok where
+  | u | t | uh | th | w | v
+deriving DecidableEq, Repr
 
-def udpRun (v : Variant) (c : UdpCase) (σ : List Bool) : UdpSt := σ.foldl (udpStep v c) (udpInit c)
+def utailEnd : Tl → Option Bool
+  | .hold => none
+  | .eof => some false
+  | .err => some true
+
+def UdpSt.withEnc (s : UdpSt) (e : Enc) : UdpSt := { s with enc := e, cwT := s.cwT || e.done }
+
+def udpStepU (c : UdpCase) (s : UdpSt) (hold : Bool) : UdpSt :=
+  if s.enc.done then s
+  else match s.enc.wip with
+    | some w => s.withEnc (s.enc.stepBlocked w s.udpClosed (utailEnd c.utail))
+    | none =>
+      if s.udpClosed then s.withEnc (s.enc.finish false false)   -- woken by the Close, not by the schedule
+      else match s.enc.pending with
+        | ev :: rest => s.withEnc (encEv { s.enc with pending := rest } hold ev)
+        | [] =>
+          match utailEnd c.utail with
+          | none => s
+          | some te => s.withEnc (s.enc.finish te hold)
+
+def UdpSt.commitDec (v : Variant) (s : UdpSt) (d : Dec) : UdpSt :=
+  { s with dec := d, decHeld := none, udpClosed := s.udpClosed || (d.done && v == .repaired) }
+
+def udpStepT (v : Variant) (c : UdpCase) (s : UdpSt) (hold : Bool) : UdpSt :=
+  if s.dec.done || s.decHeld.isSome then s
+  else if s.dec.pending.isEmpty && c.ttail == .hold && !s.cwT && decide (s.dec.buf.length < refill) then s
+  else
+    let d := decIter v (c.ttail == .err) (c.tfused && c.ttail != .hold) s.dec
+    if hold && decide (d.out.length > s.dec.out.length) then { s with decHeld := some d }
+    else s.commitDec v d
+
+def udpStep (v : Variant) (c : UdpCase) (s : UdpSt) (t : UTok) : UdpSt :=
+  match t with
+  | .u => udpStepU c s false
+  | .uh => udpStepU c s true
+  | .t => udpStepT v c s false
+  | .th => udpStepT v c s true
+  | .w => s.withEnc s.enc.endWrite
+  | .v => match s.decHeld with
+    | some d => s.commitDec v d
+    | none => s
+
+def udpRun (v : Variant) (c : UdpCase) (σ : List UTok) : UdpSt := σ.foldl (udpStep v c) (udpInit c)
 
 def UdpSt.returned (s : UdpSt) : Bool := s.enc.done && s.dec.done
 
-/-- A schedule followed by: the UDP side runs until it ends or blocks, the tunnel side runs to its
-end, the UDP side gets one more turn (to notice that its socket was closed). -/
-def udpComplete (c : UdpCase) (σ : List Bool) : List Bool :=
-  σ ++ List.replicate (c.uevs.length + 1) true ++ List.replicate (stepsFor c.tchunks) false ++ [true]
+/-- A schedule followed by: writes in progress complete, the UDP side runs until it ends or blocks,
+the tunnel side runs to its end, the UDP side gets one more turn (to notice that its socket was closed). -/
+def udpComplete (c : UdpCase) (σ : List UTok) : List UTok :=
+  σ ++ [.w, .v] ++ List.replicate (c.uevs.length + 1) .u ++ List.replicate (stepsFor c.tchunks) .t ++ [.u]
 
 structure UdpObs where
   ret : Bool
